@@ -365,11 +365,17 @@ def run(c, prog, ctx):
     I = Fn(prog, T + "TaprootBuilder::insert")
     node = [k for k, v in I.names.items() if v == "node"]
     depth = [k for k, v in I.names.items() if v is not None and v == "depth"]
-    # identify state vars structurally: the one compared with 128 is depth
-    m = re.match(r"if \(var\('(v\d)',\) Gt 128\)", I.lines[0]) if I.lines else None
-    if not m:
-        raise CannotDecide("insert does not start with the depth limit guard")
-    dv = m.group(1)
+    # the depth variable: the (re)assigned argument named `depth`; failing that, the variable the combine loop compares with the pending length
+    dvs = [k for k, v in I.names.items() if v == "depth"]
+    if not dvs:
+        for cx, s in I.flat:
+            if s[0] == "loop":
+                m = re.search(r"var\('(v\d+)',\)", sh(s[1]))
+                if m:
+                    dvs = [m.group(1)]
+    if not dvs:
+        raise CannotDecide("insert: depth variable not found")
+    dv = dvs[0]
     bad = []
     LEN = "std::vec::Vec::len(arg1.branch)"
     for d in list(range(0, 8)) + [127, 128, 129, 130, 1000]:
